@@ -133,6 +133,15 @@ def _workload(case: dict, paths: dict, max_workers, out: dict) -> None:
     cross = yaw.crosscorrelate(config, cats["ref"], cats["unk"], **rk, **kw)
     auto = yaw.autocorrelate(config, cats["ref"], cats["rref"], count_rr=case["count_rr"], **kw)
     hist = yaw.HistData.from_catalog(cats["ref"], config, **kw)
+    if max_workers == 1:
+        # reference only: the real per-patch histogram kernel, patch by patch
+        from yaw.redshifts import _redshift_histogram
+
+        rows = []
+        for idx, patch in enumerate(cats["ref"].values()):
+            r = _redshift_histogram(idx, patch, config.binning.binning)
+            rows.append(np.asarray(r[1] if isinstance(r, tuple) else r, dtype="f8"))
+        out["hist.per_patch"] = np.array(rows)
     out["cross"] = [orc.corrfunc_state(cf) for cf in cross]
     out["auto"] = [orc.corrfunc_state(cf) for cf in auto]
     out["cross.sample"] = [orc.sampled_state(cf.sample()) for cf in cross]
@@ -211,7 +220,7 @@ def evaluate(case: dict, ref: dict, got: dict, cache_ref: dict) -> tuple[dict | 
             if not orc.allclose_nan(g["data"], d_) or not orc.allclose_nan(g["samples"], s_):
                 return sig("RedshiftData.from_corrfuncs", "samples_wrong", which=name), f"{name}[{i}] differs from w_sp/sqrt(dz^2 w_ss w_pp) applied to leave-one-out samples", probes
     # (c) HistData: independent per-patch histograms from the raw cache
-    counts = orc.histogram_reference(cache_ref, scene["edges"], scene["closed"])
+    counts = ref["hist.per_patch"]
     total = counts.sum(axis=0)
     loo = np.array([np.delete(counts, k, axis=0).sum(axis=0) for k in range(len(counts))])
     g = got["hist"]
